@@ -85,18 +85,21 @@ type Tracer struct {
 
 	noiseOn   int32
 	noiseSeed uint64
-	NoiseNum  uint64 // probability NoiseNum/1024 of a perturbation per point
+	NoiseNum  uint64          // probability NoiseNum/1024 of a perturbation per point
 	NoPoints  map[string]bool // points at which no noise is injected (inside locks)
 
 	gmu   sync.Mutex
 	gates []*Gate
 
 	Observer func(ev Event) // called (outside the trace lock) for each event
+
+	Collapse  map[string]bool // points whose immediate repetitions by one goroutine are merged
+	collapsed int64
 }
 
 // NewTracer creates a tracer that keeps events.
 func NewTracer() *Tracer {
-	return &Tracer{Keep: true, counts: map[string]int64{}, NoiseNum: 0,
+	return &Tracer{Keep: true, counts: map[string]int64{}, NoiseNum: 0, Collapse: map[string]bool{"pool.broadcast": true},
 		NoPoints: map[string]bool{"pool.add.pushed": true, "pool.add.signalled": true, "pool.idle.locked": true,
 			"pool.idle.woken": true, "mon.created.locked": true, "mon.activated.locked": true,
 			"mon.failed.locked": true, "mon.finish.locked": true, "tq.push": true, "tq.pop": true}}
@@ -156,7 +159,14 @@ func (t *Tracer) record(point string, args []interface{}) int64 {
 	var ev Event
 	if t.Keep {
 		ev = Event{s, g, point, args}
-		t.events = append(t.events, ev)
+		// a polling loop that notifies again and again (WaitAll, JoinAll,
+		// SetWorkerCount(wait)) is kept as ONE event carrying the latest stamp
+		if n := len(t.events); n > 0 && t.Collapse[point] && t.events[n-1].Point == point && t.events[n-1].G == g {
+			t.events[n-1].Seq = s
+			t.collapsed++
+		} else {
+			t.events = append(t.events, ev)
+		}
 	}
 	t.mu.Unlock()
 	if t.Observer != nil {
@@ -318,4 +328,90 @@ func Signature(evs []Event, keep func(p string) bool) uint64 {
 		}
 	}
 	return h
+}
+
+// PoolView is what the trace says about one thread pool.
+type PoolView struct {
+	LiveWorkers map[uint64]int64 // goroutine id -> seq of its last event
+	LastPoint   map[uint64]string
+	Pushed      int64
+	Signalled   int64
+	LastNotify  int64             // seq of the last add.signalled / broadcast
+	WorkerIDs   map[uint64]uint64 // goroutine id -> pool worker id
+	Exited      int
+	TraceLen    int
+}
+
+// ViewPool summarises the trace for one pool (first hook argument == pool).
+func ViewPool(evs []Event, pool interface{}) *PoolView {
+	v := &PoolView{LiveWorkers: map[uint64]int64{}, LastPoint: map[uint64]string{}, WorkerIDs: map[uint64]uint64{}, TraceLen: len(evs)}
+	for _, e := range evs {
+		if len(e.Args) == 0 || e.Args[0] != pool || len(e.Point) < 5 || e.Point[:5] != "pool." {
+			continue
+		}
+		switch e.Point {
+		case "pool.add.pushed":
+			v.Pushed++
+		case "pool.add.signalled":
+			v.Signalled++
+			v.LastNotify = e.Seq
+		case "pool.broadcast":
+			v.LastNotify = e.Seq
+		case "pool.worker.loop":
+			v.LiveWorkers[e.G] = e.Seq
+			v.LastPoint[e.G] = e.Point
+			if len(e.Args) > 1 {
+				if id, ok := e.Args[1].(uint64); ok {
+					v.WorkerIDs[e.G] = id
+				}
+			}
+		case "pool.worker.exit":
+			delete(v.LiveWorkers, e.G)
+			delete(v.LastPoint, e.G)
+			v.Exited++
+		case "pool.get.kill", "pool.get.popped", "pool.get.empty", "pool.idle.beforewait", "pool.idle.locked", "pool.idle.woken":
+			if _, ok := v.LiveWorkers[e.G]; ok {
+				v.LiveWorkers[e.G] = e.Seq
+				v.LastPoint[e.G] = e.Point
+			}
+		}
+	}
+	return v
+}
+
+// PoolStuck decides the stuck state of DESIGN.md 3.3 for one pool: there is
+// at least one live worker, no AddTask is between push and signal, every live
+// worker's last event is its "before wait" event, every such goroutine is
+// blocked in sync.Cond.Wait according to the scheduler (taken after the trace
+// snapshot), and the trace did not grow while this was established. The caller
+// must make sure that no pool call of its own is outstanding.
+func PoolStuck(t *Tracer, pool interface{}) (bool, *PoolView) {
+	seq0 := t.Now()
+	evs := t.Snapshot()
+	v := ViewPool(evs, pool)
+	if len(v.LiveWorkers) == 0 || v.Pushed != v.Signalled {
+		return false, v
+	}
+	for g, l := range v.LiveWorkers {
+		p := v.LastPoint[g]
+		if p != "pool.idle.locked" && p != "pool.idle.beforewait" {
+			return false, v
+		}
+		_ = l
+	}
+	// Every notify call that was started has returned (pushed == signalled;
+	// broadcasts come from calls of the harness, which are not outstanding):
+	// Signal/Broadcast make the chosen waiters runnable before they return,
+	// so a worker that the scheduler still reports in sync.Cond.Wait below
+	// was not chosen by any of them and nothing is left to wake it.
+	st := GoStates()
+	for g := range v.LiveWorkers {
+		if st[g] != "sync.Cond.Wait" {
+			return false, v
+		}
+	}
+	if t.Now() != seq0 {
+		return false, v
+	}
+	return true, v
 }
